@@ -65,6 +65,10 @@ def run_one(prop, case):
     return None, traceback.format_exc()
 
 
+class _TimeUp(Exception):
+  pass
+
+
 def worker_main(args):
   env.setup()
   import hypothesis
@@ -135,12 +139,15 @@ def worker_main(args):
     def test(case):
       if max_seconds and time.time() - t0 > max_seconds:
         res['timed_out'] = True
-        return
+        raise _TimeUp()      # ends the Hypothesis run (otherwise it keeps generating up to max_examples)
       handle(case)
     try:
       test()
+    except _TimeUp:
+      pass
     except Exception:
-      res['harness_errors'].append({'case': None, 'traceback': traceback.format_exc()})
+      if not res['timed_out']:
+        res['harness_errors'].append({'case': None, 'traceback': traceback.format_exc()})
 
   res['nontrivial_keys'] = sorted(keys)
   res['wall_s'] = time.time() - t0
@@ -339,7 +346,8 @@ def parent_main(args):
            '--shard', str(i), '--nshards', str(nshards), '--examples', str(per),
            '--max-seconds', str(b['max_seconds']), '--out', out]
     log = open(os.path.join(work, 'shard%d.log' % i), 'w')
-    procs.append((subprocess.Popen(cmd, env=penv, stdout=log, stderr=subprocess.STDOUT, cwd=env.HARNESS), out, log))
+    penv['GV_SHARD'] = str(i)
+    procs.append((subprocess.Popen(cmd, env=dict(penv), stdout=log, stderr=subprocess.STDOUT, cwd=env.HARNESS), out, log))
   results = []
   harness_errors = []
   for p, out, log in procs:
